@@ -6,6 +6,10 @@ let () =
   (match Array.to_list Sys.argv with
    | [ _; "http"; file ] -> Drv_http.http file
    | [ _; "proto"; file ] -> Drv_proto.proto file
+   | [ _; "codec-mesh"; file ] -> Drv_codec.codec_mesh file
+   | [ _; "codec-image"; file ] -> Drv_codec.codec_image file
+   | [ _; "codec-msg"; file ] -> Drv_codec.codec_msg file
+   | [ _; "codec-reflect"; file ] -> Drv_codec.codec_reflect file
    | _ -> prerr_endline "usage: driver http <trace>"; exit 2);
   Printf.printf "CHECKED %d DIFFS %d\n" !checked !diffs;
   exit (if !diffs = 0 then 0 else 1)
